@@ -114,6 +114,11 @@ type Registry struct {
 	CurOp int
 	N     int
 	Log   []Exchange
+
+	// WarnEvery > 0: every WarnEvery-th response carries Warning headers; the texts of the
+	// well-formed ones (299 - "text") are recorded in SentWarnings.
+	WarnEvery    int
+	SentWarnings []string
 }
 
 func New(main, other string, p Profile) *Registry {
@@ -546,7 +551,20 @@ func (g *Registry) Do(req *http.Request) (*http.Response, error) {
 	}
 	g.N++
 	g.Log = append(g.Log, Exchange{Op: g.CurOp, Q: q, R: r, Bad: bad, Hit: hit})
-	return g.concrete(req, r), nil
+	resp := g.concrete(req, r)
+	if g.WarnEvery > 0 && g.N%g.WarnEvery == 0 {
+		t1 := fmt.Sprintf("verif warning %d", g.N)
+		resp.Header.Add("Warning", fmt.Sprintf("299 - %q", t1))
+		resp.Header.Add("Warning", `199 - "not a 299 warning"`)
+		resp.Header.Add("Warning", `299 registry "named agent"`)
+		g.SentWarnings = append(g.SentWarnings, t1)
+		if g.N%2 == 0 {
+			t2 := fmt.Sprintf("second \"quoted\" %d", g.N)
+			resp.Header.Add("Warning", fmt.Sprintf("299 - %q", t2))
+			g.SentWarnings = append(g.SentWarnings, t2)
+		}
+	}
+	return resp, nil
 }
 
 // ---------- printing (must equal ml/c13_main.ml) ----------
@@ -734,7 +752,9 @@ func SpecCheck(req *http.Request, body []byte, scheme, host string) string {
 		}
 		return ""
 	case spRefs.MatchString(p):
-		if req.Method != "GET" || !nobody || rng != "" || !only("artifactType") {
+		// n: oras-go's ReferrerListPageSize (the tag-list style page size; registries without
+		// referrers pagination ignore it)
+		if req.Method != "GET" || !nobody || rng != "" || !only("artifactType", "n") {
 			return "referrers request"
 		}
 		return ""
